@@ -70,6 +70,22 @@ func CheckConstructor(
 	return violations
 }
 
+// inConstructorOf reports whether currentFunction is a constructor listed for the type.
+// Constructors live in the package that declares the type: a function of another package
+// that merely has the same name is not a constructor.
+func inConstructorOf(
+	pass *analysis.Pass,
+	constructors util.TypeAssociationRegistry,
+	pkgPath string,
+	currentFunction string,
+	typeName string,
+) bool {
+	if pass.Pkg == nil || pass.Pkg.Path() != pkgPath {
+		return false
+	}
+	return constructors.Match(pkgPath, currentFunction, typeName)
+}
+
 func checkCompositeLiteral(
 	pass *analysis.Pass,
 	lit *ast.CompositeLit,
@@ -104,7 +120,7 @@ func checkCompositeLiteral(
 	}
 
 	// Check if we're in one of the allowed constructors
-	if constructors.Match(pkgPath, currentFunction, typeName) {
+	if inConstructorOf(pass, constructors, pkgPath, currentFunction, typeName) {
 		return nil
 	}
 
@@ -164,7 +180,7 @@ func checkNewCall(
 	}
 
 	// Check if we're in one of the allowed constructors
-	if constructors.Match(pkgPath, currentFunction, typeName) {
+	if inConstructorOf(pass, constructors, pkgPath, currentFunction, typeName) {
 		return nil
 	}
 
@@ -236,7 +252,7 @@ func checkVarDeclaration(
 			}
 
 			// Check if we're in one of the allowed constructors
-			if constructors.Match(pkgPath, currentFunction, typeName) {
+			if inConstructorOf(pass, constructors, pkgPath, currentFunction, typeName) {
 				continue
 			}
 
